@@ -100,6 +100,255 @@ class Minimiser:
         return "insp:string:unminimised"
 
 
+# ---------------------------------------------------------------- literal direction (c19.lit)
+# Independent oracle, written from the language description and not from the code: the value a
+# numeral denotes is sum(d_i * radix^i); `_` separates digits; 0x 0o 0b 0d 0q (either case) select
+# radix 16 8 2 12 4; no prefix means DECIMAL, leading zeros included; iN / uN / u literals must fit.
+import re
+from fractions import Fraction
+
+DIGS = "0123456789abcdefghijklmnopqrstuvwxyz"
+PREFIX = {"x": 16, "o": 8, "b": 2, "d": 12, "q": 4}
+RADIX_NAME = {10: "dec", 16: "hex", 8: "oct", 2: "bin", 12: "duo", 4: "quat"}
+SUFFIXES = ("i8", "i16", "i32", "i64", "u8", "u16", "u32", "u64", "u")
+
+
+def numeral_value(digits, radix):
+    """value of a digit string with `_` separators; 'error' for an illegal character, None when
+    there is no digit at all (underscores only: outside the property, see the note in run())"""
+    v, seen = 0, False
+    for ch in digits:
+        if ch == "_":
+            continue
+        d = DIGS.find(ch.lower()) if ch.isascii() and ch.isalnum() else -1
+        if d < 0 or d >= radix:
+            return "error"
+        v, seen = v * radix + d, True
+    return v if seen else None
+
+
+def split_literal(text):
+    """(sign, radix, digits, suffix) of an integer literal spelling, or None"""
+    sign = ""
+    if text[:1] in ("+", "-"):
+        sign, text = text[0], text[1:]
+    radix, body = 10, text
+    if len(text) >= 2 and text[0] == "0" and text[1].lower() in PREFIX:
+        radix, body = PREFIX[text[1].lower()], text[2:]
+    m = re.fullmatch("([%s_]+?)(i8|i16|i32|i64|u8|u16|u32|u64|u)?" % (DIGS[:radix] + DIGS[10:radix].upper()), body)
+    if not m:
+        return None
+    return sign, radix, m.group(1), m.group(2) or ""
+
+
+def literal_oracle(text):
+    p = split_literal(text)
+    if p is None:
+        return None
+    sign, radix, digits, suffix = p
+    v = numeral_value(digits, radix)
+    if v is None or v == "error":
+        return None
+    if suffix:
+        bits = int(suffix[1:] or 64)
+        if v >= (1 << (bits - 1 if suffix[0] == "i" else bits)):
+            return "error"          # the literal is range-checked before a unary minus is applied
+        if sign and suffix[0] == "u":
+            return None
+    if sign == "-":
+        v = -v
+    return ("I" if not suffix else suffix + ":") + str(v)
+
+
+def toint_oracle(base, bs):
+    if base != 0 and not 2 <= base <= 36:
+        return "error"
+    try:
+        s = bs.decode("ascii")
+    except UnicodeDecodeError:
+        return "error"
+    sign = ""
+    if s[:1] in ("+", "-"):
+        sign, s = s[0], s[1:]
+    radix = base or 10
+    if base == 0 and len(s) >= 2 and s[0] == "0" and s[1].lower() in PREFIX:
+        radix, s = PREFIX[s[1].lower()], s[2:]
+    if s == "":
+        return "error"
+    v = numeral_value(s, radix)
+    if v is None:
+        return None
+    if v == "error":
+        return "error"
+    return "I" + str(-v if sign == "-" else v)
+
+
+def round_binary(fr, p, emin):
+    """nearest-even rounding of a non-negative Fraction to precision p, minimum exponent emin;
+    returns (mantissa, exponent) with value = mantissa * 2**exponent"""
+    if fr == 0:
+        return 0, 0
+    e = fr.numerator.bit_length() - fr.denominator.bit_length()
+    if Fraction(2) ** e > fr:
+        e -= 1
+    q = max(e, emin) - (p - 1)
+    m = fr / Fraction(2) ** q
+    n = m.numerator // m.denominator
+    rem = m - n
+    if rem > Fraction(1, 2) or (rem == Fraction(1, 2) and n % 2 == 1):
+        n += 1
+    return n, q
+
+
+def float_oracle(text):
+    kind, body = "F", text
+    for sfx, k in (("f64", "F64:"), ("f32", "F32:")):
+        if text.endswith(sfx):
+            kind, body = k, text[:-3]
+    body = body.replace("_", "")
+    if not re.fullmatch(r"[0-9]+(\.[0-9]+)?([eE][+-]?[0-9]+)?", body):
+        return None
+    fr = Fraction(body)
+    p, emin, ebits, emax = (24, -126, 8, 127) if kind == "F32:" else (53, -1022, 11, 1023)
+    n, q = round_binary(fr, p, emin)
+    if n == 0:
+        bits = 0
+    else:
+        if n >> p:                    # rounding carried into the next binade
+            n, q = n >> 1, q + 1
+        if n >> (p - 1) == 0:         # subnormal
+            bits = n
+        else:
+            e = q + p - 1
+            if e > emax:
+                return None           # overflow: outside what the generator means to produce
+            bits = ((e - emin + 1) << (p - 1)) | (n & ((1 << (p - 1)) - 1))
+    return kind + ("%08x" if kind == "F32:" else "%016x") % bits
+
+
+def lit_shape(digits):
+    ds = digits.replace("_", "")
+    if len(ds) > 1 and ds[0] == "0":
+        return "leading-zero"
+    return "underscore" if "_" in digits else "plain"
+
+
+def lit_key(inp):
+    """canonical class of a failing c19.lit case"""
+    f = inp.split(" ")
+    if f[0] == "L":
+        p = split_literal(f[1]) if len(f) > 1 else None
+        if p is None:
+            return "lit:unparsed"
+        sign, radix, digits, suffix = p
+        return "lit:%s:%s:%s" % (suffix or "int", RADIX_NAME[radix], lit_shape(digits))
+    if f[0] in ("T", "E"):
+        api = "api" if f[0] == "T" else "elk"
+        try:
+            base = int(f[1])
+            bs = (bytes.fromhex(f[2]) if f[0] == "T" else f[2].encode()) if len(f) > 2 else b""
+        except (ValueError, IndexError):
+            return "toint:unparsed"
+        bc = "base0" if base == 0 else "explicit-base" if 2 <= base <= 36 else "invalid-base"
+        s = bs.decode("latin-1").lstrip("+-")
+        pre = "dec"
+        if base == 0 and len(s) >= 2 and s[0] == "0" and s[1].lower() in PREFIX:
+            pre, s = RADIX_NAME[PREFIX[s[1].lower()]], s[2:]
+        want = toint_oracle(base, bs)
+        if want == "error":
+            return "toint:%s:%s:%s:invalid" % (api, bc, pre)
+        if want is None:
+            return "toint:%s:%s:%s:no-digit" % (api, bc, pre)
+        return "toint:%s:%s:%s:%s" % (api, bc, pre, lit_shape(s))
+    if f[0] == "F":
+        t = f[1] if len(f) > 1 else ""
+        kind = "f32" if t.endswith("f32") else "f64" if t.endswith("f64") else "float"
+        return "floatlit:%s:%s" % (kind, "exponent" if re.search("[eE]", t[:-3] if kind != "float" else t) else "fraction")
+    return "lit:unparsed"
+
+
+def run_lit(ctx, h, m, gfile):
+    """c19.lit: literal spellings and String#to_int against the Coq model's literal evaluator
+    (eval_literal / to_int) and against the independent written-value oracle above"""
+    n = ctx.n(2000, 150000)
+    corpus = os.path.join(vlib.ROOT, "corpus", "C19.lit.txt")
+    cmd = [h, "-seed", str(ctx.sseed("c19.lit")), "-n", str(n), "-tier", ctx.tier, "-extra", "lit"]
+    if os.path.exists(corpus):
+        cmd += ["-input", corpus]
+    rc, out = vlib.sh(cmd, timeout=3000, env=vlib.elk_env())
+    ids, inputs, obs = vlib.parse_case_lines(out)
+    programs = obs.pop("meta", None)
+    ids = [i for i in ids if i != "meta"]
+    if rc != 0 or not ids:
+        ctx.broke("c19.lit: harness exited %d" % rc, out[-3000:])
+        if not ids:
+            return
+    rc2, exp, mout = vlib.run_model(m, ids, inputs, args=[gfile])
+    if rc2 != 0:
+        ctx.broke("c19.lit: model driver exited %d" % rc2, mout[-3000:])
+    dist, distinct, nfail, nodigit, unjudged, oracle2 = {}, set(), 0, 0, 0, 0
+    for i in ids:
+        inp = inputs[i]
+        f = inp.split(" ")
+        kind = f[0]
+        o = obs[i].split(" ", 1)[0]            # "error <detail>" -> "error"
+        if o in ("bad-input", "panic") or o.startswith("error-other"):
+            ctx.fail("lit:" + o, "%s: %s" % (inp, obs[i][:300]), stream="c19.lit", case=inp, impl=obs[i])
+            nfail += 1
+            continue
+        # oracle 1: the extracted Coq model (not for float literals)
+        e = exp.get(i)
+        # oracle 2: the written value, computed independently
+        try:
+            if kind == "L":
+                w = literal_oracle(f[1])
+            elif kind == "T":
+                w = toint_oracle(int(f[1]), bytes.fromhex(f[2]) if len(f) > 2 else b"")
+            elif kind == "E":
+                w = toint_oracle(int(f[1]), f[2].encode() if len(f) > 2 else b"")
+            else:
+                w = float_oracle(f[1])
+        except (ValueError, IndexError):
+            w = None
+        cls = kind + ":" + ("error" if o == "error" else "value")
+        dist[cls] = dist.get(cls, 0) + 1
+        if len(inp) > 3:
+            distinct.add(inp)
+        bad = None
+        if kind != "F":
+            if e is None:
+                ctx.broke("c19.lit: the model gave no answer for %s" % inp)
+            elif e != o:
+                bad = ("implementation differs from the proved model (eval_literal / to_int)", e)
+        if w is None:
+            if kind in ("T", "E") and o != "error":
+                nodigit += 1                   # "_", "0x_": accepted as 0; not a numeral, not judged
+            else:
+                unjudged += 1
+        else:
+            oracle2 += 1
+            if bad is None and w != o:
+                bad = ("the literal / string does not denote the written value (independent oracle)", w)
+            if kind != "F" and e is not None and e != w:
+                ctx.broke("c19.lit: the Coq model and the written-value oracle disagree on %s" % inp, "model %s oracle %s" % (e, w))
+        if bad:
+            nfail += 1
+            if nfail <= 300:
+                ctx.fail(lit_key(inp), "%s: evaluates to %s, the written value is %s" % (inp, obs[i][:200], bad[1]),
+                         stream="c19.lit", case=inp, impl=obs[i], model=bad[1], oracle=bad[0])
+    ctx.stream("c19.lit", len(ids), len(distinct),
+               "integer literal spellings (decimal with leading zeros, prefixes 0x 0o 0b 0d 0q in either case, `_` separators, "
+               "optional unary sign, suffixes i8..u64/u, digits drawn from sub-alphabets so that numerals also look like a smaller "
+               "base, values around 2^7..2^64 and up to 200 bits) evaluated by the real checker+compiler+VM in batched programs; "
+               "String#to_int at the Go API (bases 0, 2..36, invalid bases; well-formed and damaged numerals, illegal digits, "
+               "non-ASCII bytes) and at the Elk level (with and without the base argument); Float/Float64/Float32 literal "
+               "spellings (leading zeros, `_`, exponents). Expected values: extracted eval_literal/to_int (ints) and an independent "
+               "exact written-value oracle (ints and floats). non-trivial = more than one character; distinct by input",
+               [{"input": inputs[i], "observed": obs[i][:200]} for i in ids[:2] + ids[-2:]], dist,
+               failures=nfail, programs_evaluated=programs, judged_by_second_oracle=oracle2,
+               no_digit_strings_accepted=nodigit, unjudged_by_second_oracle=unjudged)
+
+
 def run(ctx):
     ctx.explanation = (
         "Proved (Coq, for every unicode.IsGraphic / IsLetter): every byte string (valid UTF-8 or not) printed by the model of "
@@ -182,6 +431,9 @@ def run(ctx):
                              stream="c19.insp", case=inputs[i], impl=obs[i], model=exp.get(i),
                              oracle="inspect output, read by the lexer model, is not the original value")
         ctx.streams["c19.insp"]["lexback_failures"] = nback
+
+    # ---- literal direction
+    run_lit(ctx, h, m, gfile)
 
     # ---- end to end
     n = ctx.n(1500, 60000)
